@@ -1,14 +1,180 @@
 /- Line-protocol driver of the formatter cluster (see lakefile.toml). -/
 import FfcxModel.Driver.Loop
+import FfcxModel.LNodes.Wire
+import FfcxModel.LNodes.FormatC
+import FfcxModel.LNodes.FormatNumba
+import FfcxModel.LNodes.Lex
+import FfcxModel.LNodes.ParseC
+import FfcxModel.LNodes.ParsePy
 
-open Ffcx
+open Ffcx Ffcx.LNodes Ffcx.LNodes.Fmt
+
+namespace FmtDriver
+
+def S (cs : List Char) : Sexp := .atom (String.ofList cs)
+def B (b : Bool) : Sexp := Sexp.ofBool b
+
+def tokSexp : Tok → Sexp
+  | .id s => .list [.atom "id", .atom s]
+  | .num s => .list [.atom "num", .atom s]
+  | .p q => .list [.atom "p", S q.text]
+  | .bad c => .list [.atom "bad", S [c]]
+  | .newline => .atom "NEWLINE"
+  | .indent => .atom "INDENT"
+  | .dedent => .atom "DEDENT"
+
+def uopName : UOp → String
+  | .neg => "neg" | .not => "not"
+
+partial def ptSexp : PT → Sexp
+  | .num s => .list [.atom "num", .atom s]
+  | .id s => .list [.atom "id", .atom s]
+  | .call f args => .list (.atom "call" :: .atom f :: args.map ptSexp)
+  | .idx a ix => .list (.atom "idx" :: ptSexp a :: ix.map ptSexp)
+  | .un op a => .list [.atom (uopName op), ptSexp a]
+  | .bin op a b => .list [.atom op.toString, ptSexp a, ptSexp b]
+  | .cond c t f => .list [.atom "cond", ptSexp c, ptSexp t, ptSexp f]
+  | .chain a rest => .list (.atom "chain" :: ptSexp a :: rest.map (fun (op, x) => .list [.atom op.toString, ptSexp x]))
+  | .kw k v => .list [.atom "kw", .atom k, ptSexp v]
+  | .tuple xs => .list (.atom "tuple" :: xs.map ptSexp)
+  | .list xs => .list (.atom "list" :: xs.map ptSexp)
+
+partial def initSexp : PInit → Sexp
+  | .e x => ptSexp x
+  | .braces xs => .list (.atom "braces" :: xs.map initSexp)
+
+partial def psSexp : PS → Sexp
+  | .assign add l r => .list [.atom (if add then "addassign" else "assign"), ptSexp l, ptSexp r]
+  | .decl q n dims init => .list [.atom "decl", .list (q.map .atom), .atom n, .list (dims.map ptSexp),
+      match init with | none => .atom "none" | some x => initSexp x]
+  | .loop i lo hi body => .list (.atom "for" :: .atom i :: ptSexp lo :: ptSexp hi :: body.map psSexp)
+  | .block body => .list (.atom "block" :: body.map psSexp)
+
+def isStmtHead (h : String) : Bool :=
+  ["assign", "addassign", "vdecl", "adecl", "for", "comment", "block", "section"].contains h
+
+def scalarOf (s : Sexp) : Except String Scalar := do
+  let a ← s.asAtom
+  match Scalar.ofString a with
+  | some sc => pure sc
+  | none => throw s!"bad scalar type {a}"
+
+def optText : Option (List Char) → Sexp
+  | some t => .list [.atom "ok", S t]
+  | none => .list [.atom "raise"]
+
+def optPT : Option PT → Sexp
+  | some t => .list [.atom "ok", ptSexp t]
+  | none => .list [.atom "fail"]
+
+def optPSs : Option (List PS) → Sexp
+  | some t => .list (.atom "ok" :: t.map psSexp)
+  | none => .list [.atom "fail"]
+
+def kindSexp : Option Bool → Sexp
+  | some true => .atom "cond" | some false => .atom "arith" | none => .atom "illtyped"
+
+/-- everything the harness wants to know about one expression under the C formatter -/
+def exprC (sc : Scalar) (e : Expr) : Sexp :=
+  let ps := piecesC sc e
+  let text := render ps
+  let lexed := lexC text
+  let (ok, _, _) := roundtripExprC sc e
+  .list [.atom "res", S text, B (lexed == toks ps), B ok, B (wfC sc e), kindSexp (kindOf e), B (noFuse e)]
+
+def exprPy (e : Expr) : Sexp :=
+  let ps := piecesPy e
+  let text := render ps
+  let lexed := lexPyExpr text
+  let (ok, _, _) := roundtripExprPy e
+  .list [.atom "res", S text, B (lexed == toks ps), B ok, B (wfC .f64 e), kindSexp (kindOf e), B (exprRaisesPy e)]
+
+def stmtC (sc : Scalar) (s : Stmt) : Sexp :=
+  match fmtStmtC sc s with
+  | none => .list [.atom "raise"]
+  | some text =>
+    let lexed := lexC text
+    let want := tokStmtC sc s
+    let parsed := parseStmtsTopC lexed
+    .list [.atom "res", S text, B (lexed == want), B (parsed == some (eraseStmtC sc s))]
+
+def stmtPy (sc : Scalar) (s : Stmt) : Sexp :=
+  match fmtStmtPy sc s with
+  | none => .list [.atom "raise"]
+  | some text =>
+    let lexed := lexPy text
+    let want := tokStmtPy sc s
+    let parsed := lexed.bind parseStmtsTopPy
+    .list [.atom "res", S text, B (lexed == some want), B (parsed == some (eraseStmtPy sc s))]
 
 def dispatch (req : Sexp) : Except String Sexp :=
   match req with
-  | .list (.atom cmd :: _args) =>
-    match cmd with
-    | "ping" => .ok (.atom "pong")
-    | _ => .error s!"unknown command {cmd}"
+  | .list (.atom cmd :: args) =>
+    match cmd, args with
+    | "ping", _ => .ok (.atom "pong")
+    | "fmtC", [dt, x] => do
+      let sc ← scalarOf dt
+      match x with
+      | .list (.atom h :: _) =>
+        if isStmtHead h then return optText (fmtStmtC sc (← readStmt x))
+        else return optText (some (fmtExprC sc (← readExpr x)))
+      | _ => throw "bad tree"
+    | "fmtPy", [dt, x] => do
+      let sc ← scalarOf dt
+      match x with
+      | .list (.atom h :: _) =>
+        if isStmtHead h then return optText (fmtStmtPy sc (← readStmt x))
+        else
+          let e ← readExpr x
+          return (if exprRaisesPy e then .list [.atom "raise"] else optText (some (fmtExprPy e)))
+      | _ => throw "bad tree"
+    | "exprC", [dt, x] => do return exprC (← scalarOf dt) (← readExpr x)
+    | "exprPy", [x] => do return exprPy (← readExpr x)
+    | "stmtC", [dt, x] => do return stmtC (← scalarOf dt) (← readStmt x)
+    | "stmtPy", [dt, x] => do return stmtPy (← scalarOf dt) (← readStmt x)
+    | "tokensC", [t] => do return .list ((lexC (← t.asAtom).toList).map tokSexp)
+    | "tokensPy", [t] => do
+      match lexPy (← t.asAtom).toList with
+      | some ts => return .list (ts.map tokSexp)
+      | none => return .list [.atom "fail"]
+    | "toksC", [dt, x] => do return .list ((tokExprC (← scalarOf dt) (← readExpr x)).map tokSexp)
+    | "toksPy", [x] => do return .list ((tokExprPy (← readExpr x)).map tokSexp)
+    | "parseC", [t] => do return optPT (parseExprC (lexC (← t.asAtom).toList))
+    | "parsePy", [t] => do return optPT (parseExprPy (lexPyExpr (← t.asAtom).toList))
+    | "parseStmtC", [t] => do return optPSs (parseStmtsTopC (lexC (← t.asAtom).toList))
+    | "parseStmtPy", [t] => do return optPSs ((lexPy (← t.asAtom).toList).bind parseStmtsTopPy)
+    | "fmtnum", [p, x] => do
+      let v ← x.asRat
+      match ← p.asAtom with
+      | "16" => return S (fmtFloat16 v)
+      | "r" => return S (reprFloat v)
+      | "int" => return S (fmtInt v.num)
+      | q => throw s!"bad precision {q}"
+    | "fmtcomplex", [re, im] => do return S (strComplex (← re.asRat) (← im.asRat))
+    | "litvalue", [p, x] => do return Sexp.ofRat (litValue (← p.asNat) (← x.asRat))
+    | "readnum", [t] => do
+      match readNum (← t.asAtom).toList with
+      | some v => return .list [.atom "ok", Sexp.ofRat v]
+      | none => return .list [.atom "fail"]
+    | "round64", [x] => do return Sexp.ofRat (round64 (← x.asRat))
+    | "ulp64", [x] => do return Sexp.ofRat (ulp64 (← x.asRat))
+    | "roundtripC", [dt, x] => do
+      let sc ← scalarOf dt
+      let (ok, got, want) := roundtripExprC sc (← readExpr x)
+      if ok then return .list [.atom "ok"] else return .list [.atom "mismatch", optPT got, ptSexp want]
+    | "roundtripPy", [x] => do
+      let (ok, got, want) := roundtripExprPy (← readExpr x)
+      if ok then return .list [.atom "ok"] else return .list [.atom "mismatch", optPT got, ptSexp want]
+    | "eraseStmtC", [dt, x] => do return .list ((eraseStmtC (← scalarOf dt) (← readStmt x)).map psSexp)
+    | "eraseStmtPy", [dt, x] => do return .list ((eraseStmtPy (← scalarOf dt) (← readStmt x)).map psSexp)
+    | "norm", [x] => do return writeExpr (norm (← readExpr x))
+    | "wt", [dt, x] => do
+      let sc ← scalarOf dt
+      let e ← readExpr x
+      return .list [B (wfC sc e), kindSexp (kindOf e), B (noFuse e)]
+    | _, _ => .error s!"unknown command or bad arity: {cmd}"
   | _ => .error "request must be a list"
 
-def main : IO Unit := Driver.run dispatch
+end FmtDriver
+
+def main : IO Unit := Driver.run FmtDriver.dispatch
